@@ -18,6 +18,8 @@ if _c:
     _v = json.loads(_c)
 
     def create_signature(content, keyid=None, homedir=None):
+        if _v.get("interrupt"):
+            raise KeyboardInterrupt()          # the operator presses control-C at the passphrase prompt
         if not (isinstance(_v.get("oh"), str) and isinstance(_v.get("sg"), str)):
             raise ValueError("canned signer: no signature")
         return {"keyid": keyid, "other_headers": _v["oh"], "signature": _v["sg"]}
